@@ -81,6 +81,8 @@ func main() {
 		genReservedCases()
 	case "poke":
 		genPokeCases(r, *n)
+	case "decomp":
+		genDecompCases(r, *n)
 	default:
 		fmt.Fprintln(os.Stderr, "unknown kind", *kind)
 		os.Exit(2)
